@@ -40,7 +40,7 @@ def opTexts : HOp → List Text
 
 /-- request: `hist <mem|file> <max> <ignoreSpace> <ignoreDups> op…`; both history kinds share
     the store semantics, so the model run is the same. Returns (model obs, spec obs). -/
-def handle (tbl : CharTable) (f : List String) : Option (String × String) :=
+def handle (tbl : CharTable) (f : List String) (_impl : String) : Option (String × String) :=
   match f with
   | _kind :: mx :: isp :: idp :: ops => do
     let mx ← parseNat mx
